@@ -20,5 +20,7 @@ TraceInit ==
   /\ k = 1 /\ stage = "early" /\ queue = <<>> /\ log = <<>> /\ wire = <<>> /\ closed = FALSE /\ ignored = FALSE /\ nw = 0 /\ fdone = FALSE
   /\ reacted = {} /\ comp = FALSE
 TraceSpec == TraceInit /\ [][Next /\ UNCHANGED tid]_<<vars, tid>>
-LogMatches == Done => (log = Obs[tid].log /\ wire = Obs[tid].wire /\ comp = Obs[tid].comp)
+\* when one callable is registered several times in a list the harness cannot tell its registrations apart: the index is 0
+NoIndex(lg) == [i \in 1..Len(lg) |-> <<lg[i][1], 0, lg[i][3], lg[i][4], lg[i][5]>>]
+LogMatches == Done => ((IF Obs[tid].shared THEN NoIndex(log) ELSE log) = Obs[tid].log /\ wire = Obs[tid].wire /\ comp = Obs[tid].comp)
 =============================================================================
